@@ -29,7 +29,7 @@ func genC15(t *rapid.T) c15Case {
 	c := c15Case{
 		Data:      rapid.SliceOfN(rapid.Byte(), 0, 100).Draw(t, "data"),
 		HT:        rapid.OneOf(rapid.IntRange(0, 5), rapid.IntRange(1, 3), rapid.IntRange(-1<<31, 1<<31-1)).Draw(t, "ht"),
-		Digest:    rapid.SampledFrom([]string{"correct", "correct", "bitflip", "truncated", "extended", "empty", "other-type", "random"}).Draw(t, "digest"),
+		Digest:    rapid.SampledFrom([]string{"correct", "correct", "bitflip", "truncated", "extended", "empty", "other-type", "random", "long"}).Draw(t, "digest"),
 		Mut:       gen.GenMut(t, "mut"),
 		Raw:       rapid.SliceOfN(rapid.Byte(), 0, 48).Draw(t, "raw"),
 		OtherSame: rapid.Bool().Draw(t, "othersame"),
@@ -64,6 +64,9 @@ func c15Digest(c c15Case) []byte {
 		return append(append([]byte{}, ref...), byte(c.Mut.Val))
 	case "empty":
 		return nil
+	case "long":
+		// digests longer than any algorithm's: lengths around the widths of length prefixes (127/128, 255/256, 16383/16384)
+		return gen.DetBytes("c15-long", []int{65, 100, 127, 128, 129, 200, 255, 256, 257, 1000, 16383, 16384, 16385}[c.Mut.Pos%13])
 	case "other-type":
 		return refHash(1+(c.HT+1)%3, c.Data)
 	default:
@@ -198,7 +201,7 @@ func checkC15(c c15Case) (o vstat.Outcome) {
 
 var specC15 = vstat.Spec[c15Case]{
 	Property: "C15",
-	Rule: "data 0..100 B, hash type in 0..5 / 1..3 / any int32, digest correct / bit-flipped / truncated / extended / empty / of another algorithm / random; mutated wire encodings and arbitrary base58 text; " +
+	Rule: "data 0..100 B, hash type in 0..5 / 1..3 / any int32, digest correct / bit-flipped / truncated / extended / empty / of another algorithm / random / over-long (65..16385 bytes, around length-prefix widths); mutated wire encodings and arbitrary base58 text; " +
 		"oracle: std-lib sha256/sha1 and blake3 digests; verify succeeds iff digest matches; Validate iff known type and exact length; encodings round-trip; non-trivial = anything but (known type, correct digest)",
 	Assumptions: []string{"(UNKNOWN, empty digest) passing Validate is counted, not asserted (the code whitelists the zero value and offers IsEmpty)"},
 	Gen:         genC15,
